@@ -422,10 +422,11 @@ Theorem biclique_new_wf cs ns combine Bq :
   biclique_new V CS NS compat cs ns combine = Ok Bq -> b_wf Bq.
 Proof.
   unfold biclique_new. destruct cs as [|c cs']; [discriminate|]. destruct ns as [|n ns']; [discriminate|].
-  destruct (add_all V (c :: cs') []) as [cl|e] eqn:E1; simpl; [|discriminate].
-  destruct (add_all V (n :: ns') []) as [nl|e] eqn:E2; simpl; [|discriminate].
-  destruct (forallb _ cl); [|discriminate].
-  intros H; inversion H; subst. unfold b_wf; simpl.
+  remember (c :: cs') as cs. remember (n :: ns') as ns.
+  destruct (add_all V cs []) as [cl|e] eqn:E1; [|discriminate].
+  destruct (add_all V ns []) as [nl|e] eqn:E2; [|discriminate].
+  unfold bind. destruct (forallb _ cl); [|discriminate].
+  intros H; inversion H; subst Bq. unfold b_wf; simpl.
   split; [|split].
   - eapply add_all_nodup; eauto. constructor.
   - eapply add_all_nodup; eauto. constructor.
@@ -859,7 +860,7 @@ Qed.
 
 Lemma run_conns_inv ckw ins : forall cs cs' ys,
   Forall (fun p => CI (snd p)) cs -> run_conns V CS CK ck0 cstep cs ckw ins = Ok (cs', ys) ->
-  Forall (fun p => CI (snd p)) cs' /\ map (on_snd cfresh) cs' = map (on_snd cfresh) cs.
+  Forall (fun p => CI (snd p)) cs'.
 Proof.
   induction ins as [|[k x] tl IH]; intros cs cs' ys Hc; simpl.
   - intros H; inversion H; subst; auto.
@@ -868,13 +869,27 @@ Proof.
     destruct (run_conns V CS CK ck0 cstep (update k c' cs) ckw tl) as [[cs2 ys2]|e] eqn:Er; simpl; [|discriminate].
     intros H; inversion H; subst.
     assert (Hci : CI c) by apply (lookup_Forall _ _ _ _ Hc El).
-    destruct (IH (update k c' cs) cs' ys2) as [I F]; auto.
-    { apply Forall_update; auto. intros; simpl. eapply Hc_step; eauto. }
-    split; auto. rewrite F. eapply map_fresh_update; eauto.
+    apply (IH (update k c' cs) cs' ys2); auto.
+    apply Forall_update; auto. intros; simpl. eapply Hc_step; eauto.
+Qed.
+Lemma run_conns_frz ckw ins : forall cs cs' ys,
+  Forall (fun p => CI (snd p)) cs -> run_conns V CS CK ck0 cstep cs ckw ins = Ok (cs', ys) ->
+  map (on_snd cfresh) cs' = map (on_snd cfresh) cs.
+Proof.
+  induction ins as [|[k x] tl IH]; intros cs cs' ys Hc; simpl.
+  - intros H; inversion H; subst; auto.
+  - destruct (lookup k cs) as [c|] eqn:El; [|discriminate].
+    destruct (cstep c (getd k ckw ck0) x) as [[c' y]|e] eqn:Es; simpl; [|discriminate].
+    destruct (run_conns V CS CK ck0 cstep (update k c' cs) ckw tl) as [[cs2 ys2]|e] eqn:Er; simpl; [|discriminate].
+    intros H; inversion H; subst.
+    assert (Hci : CI c) by apply (lookup_Forall _ _ _ _ Hc El).
+    rewrite (IH (update k c' cs) cs' ys2); auto.
+    + eapply map_fresh_update; eauto.
+    + apply Forall_update; auto. intros; simpl. eapply Hc_step; eauto.
 Qed.
 Lemma run_neurs_inv nkw ws : forall ns ns' zs,
   Forall (fun p => NI (snd p)) ns -> run_neurs V NS NK nk0 nstep ns nkw ws = Ok (ns', zs) ->
-  Forall (fun p => NI (snd p)) ns' /\ map (on_snd nfresh) ns' = map (on_snd nfresh) ns.
+  Forall (fun p => NI (snd p)) ns'.
 Proof.
   induction ws as [|[k x] tl IH]; intros ns ns' zs Hc; simpl.
   - intros H; inversion H; subst; auto.
@@ -883,21 +898,46 @@ Proof.
     destruct (run_neurs V NS NK nk0 nstep (update k n' ns) nkw tl) as [[ns2 zs2]|e] eqn:Er; simpl; [|discriminate].
     intros H; inversion H; subst.
     assert (Hni : NI n) by apply (lookup_Forall _ _ _ _ Hc El).
-    destruct (IH (update k n' ns) ns' zs2) as [I F]; auto.
-    { apply Forall_update; auto. intros; simpl. eapply Hn_step; eauto. }
-    split; auto. rewrite F. eapply map_fresh_update; eauto.
+    apply (IH (update k n' ns) ns' zs2); auto.
+    apply Forall_update; auto. intros; simpl. eapply Hn_step; eauto.
 Qed.
-(* Layer.forward with ANY wiring keeps the invariants and does not change what the fresh layer looks like *)
+Lemma run_neurs_frz nkw ws : forall ns ns' zs,
+  Forall (fun p => NI (snd p)) ns -> run_neurs V NS NK nk0 nstep ns nkw ws = Ok (ns', zs) ->
+  map (on_snd nfresh) ns' = map (on_snd nfresh) ns.
+Proof.
+  induction ws as [|[k x] tl IH]; intros ns ns' zs Hc; simpl.
+  - intros H; inversion H; subst; auto.
+  - destruct (lookup k ns) as [n|] eqn:El; [|discriminate].
+    destruct (nstep n (getd k nkw nk0) x) as [[n' z]|e] eqn:Es; simpl; [|discriminate].
+    destruct (run_neurs V NS NK nk0 nstep (update k n' ns) nkw tl) as [[ns2 zs2]|e] eqn:Er; simpl; [|discriminate].
+    intros H; inversion H; subst.
+    assert (Hni : NI n) by apply (lookup_Forall _ _ _ _ Hc El).
+    rewrite (IH (update k n' ns) ns' zs2); auto.
+    + eapply map_fresh_update; eauto.
+    + apply Forall_update; auto. intros; simpl. eapply Hn_step; eauto.
+Qed.
+(* Layer.forward with ANY wiring keeps the invariants ... *)
 Lemma layer_forward_inv wiring L ins ckw nkw L' out :
-  LI L -> lforward wiring L ins ckw nkw = Ok (L', out) -> LI L' /\ layer_fresh L' = layer_fresh L.
+  LI L -> lforward wiring L ins ckw nkw = Ok (L', out) -> LI L'.
 Proof.
   intros [Hc Hn]. unfold layer_forward.
   destruct (run_conns V CS CK ck0 cstep (conns L) ckw ins) as [[cs' ys]|e] eqn:E1; simpl; [|discriminate].
   destruct (wiring ys) as [ws|e]; simpl; [|discriminate].
   destruct (run_neurs V NS NK nk0 nstep (neurs L) nkw ws) as [[ns' zs]|e] eqn:E2; simpl; [|discriminate].
-  intros H; inversion H; subst.
-  destruct (run_conns_inv _ _ _ _ _ Hc E1) as [I1 F1]. destruct (run_neurs_inv _ _ _ _ _ Hn E2) as [I2 F2].
-  split; [split; auto|]. unfold layer_fresh; simpl. rewrite F1, F2. reflexivity.
+  intros H; inversion H; subst. split; simpl.
+  - eapply run_conns_inv; eauto.
+  - eapply run_neurs_inv; eauto.
+Qed.
+(* ... and, when forward does not learn, does not change what the fresh layer looks like *)
+Lemma layer_forward_frz wiring L ins ckw nkw L' out :
+  LI L -> lforward wiring L ins ckw nkw = Ok (L', out) -> layer_fresh L' = layer_fresh L.
+Proof.
+  intros [Hc Hn]. unfold layer_forward.
+  destruct (run_conns V CS CK ck0 cstep (conns L) ckw ins) as [[cs' ys]|e] eqn:E1; simpl; [|discriminate].
+  destruct (wiring ys) as [ws|e]; simpl; [|discriminate].
+  destruct (run_neurs V NS NK nk0 nstep (neurs L) nkw ws) as [[ns' zs]|e] eqn:E2; simpl; [|discriminate].
+  intros H; inversion H; subst. unfold layer_fresh; simpl.
+  rewrite (run_conns_frz _ _ _ _ _ Hc E1), (run_neurs_frz _ _ _ _ _ Hn E2). reflexivity.
 Qed.
 Lemma layer_learn_c_inv k f L : (forall c, CI c -> CI (f c)) -> LI L -> LI (layer_learn_c CS NS k f L).
 Proof.
@@ -922,13 +962,21 @@ Definition sop_frozen (o : serial_op V CS NS CK NK XK) : Prop :=
 Definition serial_fresh (S : serial V CS NS) : serial V CS NS :=
   mkSerial (layer_fresh (s_layer S)) (s_cn S) (s_nn S) (s_tr S).
 Lemma serial_forward_inv S xs ckw nkw S' out :
-  LI (s_layer S) -> sforward S xs ckw nkw = Ok (S', out) -> LI (s_layer S') /\ serial_fresh S' = serial_fresh S.
+  LI (s_layer S) -> sforward S xs ckw nkw = Ok (S', out) -> LI (s_layer S').
 Proof.
   intros HL. unfold serial_forward.
   destruct (lforward _ _ _ _ _) as [[L' [zs ys]]|e] eqn:E; simpl; [|discriminate].
   destruct (lookup (s_nn S) zs); [|discriminate]. destruct (lookup (s_cn S) ys); [|discriminate].
-  intros H; inversion H; subst. destruct (layer_forward_inv _ _ _ _ _ _ _ HL E) as [I F].
-  split; auto. unfold serial_fresh; simpl. rewrite F. reflexivity.
+  intros H; inversion H; subst. simpl. eapply layer_forward_inv; eauto.
+Qed.
+Lemma serial_forward_frz S xs ckw nkw S' out :
+  LI (s_layer S) -> sforward S xs ckw nkw = Ok (S', out) -> serial_fresh S' = serial_fresh S.
+Proof.
+  intros HL. unfold serial_forward.
+  destruct (lforward _ _ _ _ _) as [[L' [zs ys]]|e] eqn:E; simpl; [|discriminate].
+  destruct (lookup (s_nn S) zs); [|discriminate]. destruct (lookup (s_cn S) ys); [|discriminate].
+  intros H; inversion H; subst. unfold serial_fresh; simpl.
+  rewrite (layer_forward_frz _ _ _ _ _ _ _ HL E). reflexivity.
 Qed.
 Lemma serial_step_inv S o S' out :
   LI (s_layer S) -> sop_ok o -> sstep S o = Ok (S', out) -> LI (s_layer S').
@@ -945,7 +993,7 @@ Lemma serial_step_frozen S o S' out :
 Proof.
   intros HL Ho. destruct o as [xs ckw nkw cap|sub xk|f|f]; simpl in *; try tauto.
   - destruct (sforward S xs ckw nkw) as [[S1 o1]|e] eqn:E; simpl; [|discriminate].
-    intros H; inversion H; subst. eapply serial_forward_inv; eauto.
+    intros H; inversion H; subst. eapply serial_forward_frz; eauto.
   - intros H; inversion H; subst. unfold serial_fresh, serial_clear; simpl.
     rewrite layer_clear_fresh_same; auto.
 Qed.
@@ -992,13 +1040,19 @@ Definition bop_frozen (o : biclique_op V CS NS CK NK XK) : Prop :=
 Definition biclique_fresh (Bq : biclique V CS NS) : biclique V CS NS :=
   mkBiclique (layer_fresh (b_layer Bq)) (b_post Bq) (b_pre Bq) (b_combine Bq).
 Lemma biclique_forward_inv Bq ins ckw nkw B' out :
-  LI (b_layer Bq) -> bforward Bq ins ckw nkw = Ok (B', out) ->
-  LI (b_layer B') /\ biclique_fresh B' = biclique_fresh Bq.
+  LI (b_layer Bq) -> bforward Bq ins ckw nkw = Ok (B', out) -> LI (b_layer B').
 Proof.
   intros HL. unfold biclique_forward.
   destruct (lforward _ _ _ _ _) as [[L' o]|e] eqn:E; simpl; [|discriminate].
-  intros H; inversion H; subst. destruct (layer_forward_inv _ _ _ _ _ _ _ HL E) as [I F].
-  split; auto. unfold biclique_fresh; simpl. rewrite F. reflexivity.
+  intros H; inversion H; subst. simpl. eapply layer_forward_inv; eauto.
+Qed.
+Lemma biclique_forward_frz Bq ins ckw nkw B' out :
+  LI (b_layer Bq) -> bforward Bq ins ckw nkw = Ok (B', out) -> biclique_fresh B' = biclique_fresh Bq.
+Proof.
+  intros HL. unfold biclique_forward.
+  destruct (lforward _ _ _ _ _) as [[L' o]|e] eqn:E; simpl; [|discriminate].
+  intros H; inversion H; subst. unfold biclique_fresh; simpl.
+  rewrite (layer_forward_frz _ _ _ _ _ _ _ HL E). reflexivity.
 Qed.
 Lemma biclique_step_inv Bq o B' out :
   LI (b_layer Bq) -> bop_ok o -> bstep Bq o = Ok (B', out) -> LI (b_layer B').
@@ -1015,7 +1069,7 @@ Lemma biclique_step_frozen Bq o B' out :
 Proof.
   intros HL Ho. destruct o as [ins ckw nkw cap|sub xk|k f|k f]; simpl in *; try tauto.
   - destruct (bforward Bq ins ckw nkw) as [[B1 o1]|e] eqn:E; simpl; [|discriminate].
-    intros H; inversion H; subst. eapply biclique_forward_inv; eauto.
+    intros H; inversion H; subst. eapply biclique_forward_frz; eauto.
   - intros H; inversion H; subst. unfold biclique_fresh, biclique_clear; simpl.
     rewrite layer_clear_fresh_same; auto.
 Qed.
@@ -1057,19 +1111,34 @@ Definition rop_frozen (o : recurrent_op V CS NS CK NK XK) : Prop :=
 Definition recurrent_fresh (R : recurrent V CS NS) : recurrent V CS NS :=
   r_with V CS NS R (layer_fresh (r_layer R)) None.
 Lemma recurrent_forward_inv R xs la fa kff klat kfb nkff nkfb R' out :
-  LI (r_layer R) -> rforward R xs la fa kff klat kfb nkff nkfb = Ok (R', out) ->
-  LI (r_layer R') /\ recurrent_fresh R' = recurrent_fresh R.
+  LI (r_layer R) -> rforward R xs la fa kff klat kfb nkff nkfb = Ok (R', out) -> LI (r_layer R').
 Proof.
   intros HL. unfold recurrent_forward.
   destruct (match r_fbs R with Some v => Ok v | None => _ end) as [fbs|e]; simpl; [|discriminate].
   destruct (lforward _ _ _ _ _) as [[L1 [zs1 ys1]]|e] eqn:E1; simpl; [|discriminate].
-  destruct (layer_forward_inv _ _ _ _ _ _ _ HL E1) as [I1 F1].
+  pose proof (layer_forward_inv _ _ _ _ _ _ _ HL E1) as I1.
   destruct (get_neuron CS NS L1 (r_ffn R)) as [nff|e]; simpl; [|discriminate].
   destruct (lforward _ L1 _ _ _) as [[L2 [zs2 ys2]]|e] eqn:E2; simpl; [|discriminate].
-  destruct (layer_forward_inv _ _ _ _ _ _ _ I1 E2) as [I2 F2].
+  pose proof (layer_forward_inv _ _ _ _ _ _ _ I1 E2) as I2.
   destruct (get_neuron CS NS L2 (r_fbn R)) as [nfb|e]; simpl; [|discriminate].
   destruct (lookup (r_ffn R) zs1); [|discriminate]. destruct (lookup (r_fbn R) zs2); [|discriminate].
-  intros H; inversion H; subst. split; auto.
+  intros H; inversion H; subst. auto.
+Qed.
+Lemma recurrent_forward_frz R xs la fa kff klat kfb nkff nkfb R' out :
+  LI (r_layer R) -> rforward R xs la fa kff klat kfb nkff nkfb = Ok (R', out) ->
+  recurrent_fresh R' = recurrent_fresh R.
+Proof.
+  intros HL. unfold recurrent_forward.
+  destruct (match r_fbs R with Some v => Ok v | None => _ end) as [fbs|e]; simpl; [|discriminate].
+  destruct (lforward _ _ _ _ _) as [[L1 [zs1 ys1]]|e] eqn:E1; simpl; [|discriminate].
+  pose proof (layer_forward_inv _ _ _ _ _ _ _ HL E1) as I1.
+  pose proof (layer_forward_frz _ _ _ _ _ _ _ HL E1) as F1.
+  destruct (get_neuron CS NS L1 (r_ffn R)) as [nff|e]; simpl; [|discriminate].
+  destruct (lforward _ L1 _ _ _) as [[L2 [zs2 ys2]]|e] eqn:E2; simpl; [|discriminate].
+  pose proof (layer_forward_frz _ _ _ _ _ _ _ I1 E2) as F2.
+  destruct (get_neuron CS NS L2 (r_fbn R)) as [nfb|e]; simpl; [|discriminate].
+  destruct (lookup (r_ffn R) zs1); [|discriminate]. destruct (lookup (r_fbn R) zs2); [|discriminate].
+  intros H; inversion H; subst.
   unfold recurrent_fresh, r_with; simpl. rewrite F2, F1. reflexivity.
 Qed.
 Lemma recurrent_step_inv R o R' out :
@@ -1087,7 +1156,7 @@ Lemma recurrent_step_frozen R o R' out :
 Proof.
   intros HL Ho. destruct o as [xs la fa kff klat kfb nkff nkfb cap|cf sub xk|k f|k f]; simpl in *; try tauto.
   - destruct (rforward R xs la fa kff klat kfb nkff nkfb) as [[R1 o1]|e] eqn:E; simpl; [|discriminate].
-    intros H; inversion H; subst. eapply recurrent_forward_inv; eauto.
+    intros H; inversion H; subst. eapply recurrent_forward_frz; eauto.
   - intros H; inversion H; subst. unfold recurrent_fresh, recurrent_clear, r_with; simpl.
     rewrite layer_clear_fresh_same; auto.
 Qed.
